@@ -586,6 +586,13 @@ struct Exec
 			case 3:
 			{
 				int sh = s.family;
+				// a continuous law puts no mass on single points: samples sitting exactly on a bound betray a tolerance misused as a probability
+				size_t at_bound = 0;
+				for(double x : xs)
+					if(x == p[2] || x == p[3])
+						at_bound++;
+				if(at_bound > 3)
+					ctx.violate("C18:law:point-mass-at-bound", fmt("Inverse_Transform_Sampling returned the bound itself %zu times in %zu draws of a continuous law on [%.17g,%.17g]", at_bound, xs.size(), p[2], p[3]) + "; " + describe(s));
 				dkw(s, "Inverse_Transform_Sampling", xs, [&](double x) { return shape_cdf(sh, p[0], p[1], (x - p[2]) / (p[3] - p[2])); }, 1e-9);
 				{
 					long double mean, var, mu4, w = (long double) p[3] - p[2];
@@ -766,6 +773,12 @@ struct Gen
 		Spec s;
 		s.kind = kind;
 		double off = r.chance(0.4) ? 0.0 : r.range(-100, 100), w = r.chance(0.4) ? 1.0 : r.logrange(1e-3, 1e3);
+		if(r.chance(0.15))
+			w = r.logrange(1e3, 1e10);	 // lengths in mm, times in ns: legal, and tolerances tied to the width show up here
+		if(r.chance(0.08))
+			off = r.sign() * r.logrange(1e3, 1e9);
+		if(w < 1e-6 * std::fabs(off))
+			w = 1e-6 * std::fabs(off) * r.range(1, 10);	  // keep the domain resolvable (>= 1e9 representable abscissae)
 		auto shape_params = [&](int sh, double& a, double& b) {
 			a = b = 0;
 			if(sh == 0)
@@ -807,6 +820,8 @@ struct Gen
 				s.family = (int) r.pick(std::vector<long long>{0, 1, 2, 3, 4, 5, 6});
 				double a, b;
 				shape_params(s.family, a, b);
+				if(r.chance(0.3))
+					w = r.logrange(1e3, 1e10);
 				s.p = {a, b, off, off + w};
 				break;
 			}
@@ -888,9 +903,29 @@ struct Gen
 		std::vector<Spec> bound;
 		for(int c = 0; c < ncl; c++)
 			bound.push_back(random_spec((int) r.pick(std::vector<long long>{0, 1, 2, 2, 3, 4, 4, 5, 6, 6, 7, 8}), false));
+		bool slow_client = r.chance(0.08);
+		if(slow_client)
+		{
+			// a client whose envelope is 200x (1D) / 100x (2D) too generous: about one call in 150 runs past 1000 tries into the
+			// inefficiency-warning branch (the 10000-try abort has probability < 1e-21 per call)
+			Spec s = random_spec(r.chance(0.7) ? 4 : 5, false);
+			if(s.kind == 4)
+			{
+				s.family = 5;
+				s.p[4]	 = 200.0;
+			}
+			else
+			{
+				s.family = 0;
+				s.p[6]	 = 100.0;
+			}
+			bound[0] = s;
+		}
 		static const std::vector<long long> SEEDS = {0, 1, 5489, 4294967295ll};
 		p.ops.push_back(Op("seed", {r.chance(0.5) ? r.pick(SEEDS) : (long long) (r.next() & 0xffffffffu)}));
 		long nops = r.chance(0.3) ? r.irange(3, 20) : r.irange(20, thorough ? 300 : 120);
+		if(slow_client)
+			nops = r.irange(150, 300);
 		int cur = 0;
 		long burst = 0;
 		for(long k = 0; k < nops; k++)
@@ -909,7 +944,9 @@ struct Gen
 			else
 			{
 				Spec s = bound[cur];
-				if(r.chance(0.3))
+				if(slow_client && r.chance(0.5))
+					s = bound[0];
+				else if(r.chance(0.3))
 					s = random_spec(s.kind, false);	  // same family, new parameters
 				if((s.kind == 6 || s.kind == 7) && r.chance(0.7))
 				{
@@ -926,7 +963,7 @@ struct Gen
 	{
 		Plan p;
 		bool thorough = opts.tier == "thorough";
-		int kind	  = (int) r.pick(std::vector<long long>{0, 1, 2, 2, 2, 3, 4, 4, 5, 6, 6, 7});
+		int kind	  = (int) r.pick(std::vector<long long>{0, 1, 2, 2, 2, 3, 3, 3, 4, 4, 5, 6, 6, 7});
 		Spec s		  = random_spec(kind, true);
 		size_t n	  = thorough ? 1000000 : 100000;
 		if(kind == 6 || kind == 7)
@@ -968,7 +1005,7 @@ struct Gen
 
 	Plan generate()
 	{
-		double law_frac = opts.get("law_frac", "") == "" ? 0.12 : atof(opts.get("law_frac").c_str());
+		double law_frac = opts.get("law_frac", "") == "" ? 0.2 : atof(opts.get("law_frac").c_str());
 		return r.chance(law_frac) ? law_plan() : history_plan();
 	}
 };
